@@ -377,6 +377,182 @@ theorem boundary_projection_is_restriction (gs : List G) (dim : Nat) (hd : 0 < d
       simp only [bPiece, Nat.zero_add]
       rw [sumMap_eq_sum, sum_map_mul_left]
 
+/-! ### Divergence and Trace: block placement at the cell / face offsets of the listed subdomains -/
+
+/-- `Divergence(subdomains, dim).parse = blockdiag(kron(div_p, I_dim))` in list order: the local
+    divergence of the grid at position `p` (cells × faces, expanded by `dim`) sits at row offset
+    `dim * (cells of the grids before it)` and column offset `dim * (faces of the grids before it)`;
+    the shape is `(dim * Σ cells) × (dim * Σ faces)`.  Holds for ALL grid lists and `dim`. -/
+theorem divergence_is_block_diagonal (gs : List G) (dim : Nat) (locals : List (List Trip))
+    (hlen : gs.length = locals.length) :
+    divergenceMat gs dim locals = ⟨dim * sumMap G.cells gs, dim * sumMap G.faces gs,
+      (List.range gs.length).flatMap (fun p =>
+        match (gs.zip locals)[p]? with
+        | some x => (kronI x.2 dim).map (fun t =>
+            (dim * sumMap G.cells (gs.take p) + t.1, dim * sumMap G.faces (gs.take p) + t.2.1, t.2.2))
+        | none => [])⟩ := by
+  have hzl : (gs.zip locals).length = gs.length := by simp [List.length_zip, hlen]
+  unfold divergenceMat
+  rw [blockDiagAux_eq, accFlat2_map_list, accFlat2_eq, sumMap_map, sumMap_map]
+  simp only [Nat.zero_add, hzl]
+  congr 1
+  · rw [sumMap_mul_right (fun x : G × List Trip => x.1.cells), sumMap_zip_fst G.cells gs locals (by omega)]
+  · rw [sumMap_mul_right (fun x : G × List Trip => x.1.faces), sumMap_zip_fst G.faces gs locals (by omega)]
+  · congr 1
+    funext p
+    cases (gs.zip locals)[p]? with
+    | none => rfl
+    | some x =>
+      simp only []
+      rw [sumMap_mul_right (fun x : G × List Trip => x.1.cells),
+        sumMap_mul_right (fun x : G × List Trip => x.1.faces),
+        sumMap_take_zip_fst G.cells gs locals p hlen, sumMap_take_zip_fst G.faces gs locals p hlen]
+
+/-- `Trace(subdomains).trace` (scalar): the local trace of the grid at position `p` (faces × cells)
+    sits at row offset `Σ faces before`, column offset `Σ cells before` — the same offsets as the
+    face / cell projections — and the shape is `Σ faces × Σ cells`. -/
+theorem trace_is_block_placement (gs : List G) (hne : gs ≠ []) (hwf : ∀ g ∈ gs, g.wf)
+    (locals : List (List Trip)) (hlen : gs.length = locals.length)
+    (hfit : ∀ x ∈ gs.zip locals, ∀ t ∈ x.2, t.2.1 < x.1.cells) :
+    traceMat gs 1 locals = .ok ⟨sumMap G.faces gs, sumMap G.cells gs,
+      (List.range gs.length).flatMap (fun p =>
+        match (gs.zip locals)[p]? with
+        | some x => x.2.map (fun t =>
+            (sumMap G.faces (gs.take p) + t.1, sumMap G.cells (gs.take p) + t.2.1, t.2.2))
+        | none => [])⟩ := by
+  have hzl : (gs.zip locals).length = gs.length := by simp [List.length_zip, hlen]
+  cases gs with
+  | nil => exact absurd rfl hne
+  | cons g gs' =>
+    cases locals with
+    | nil => simp at hlen
+    | cons L ls =>
+      have hcp := cellProjs_eq (g :: gs') 1 (by omega) hwf
+      have e : traceMat (g :: gs') 1 (L :: ls) =
+          vstack (traceBlocks (sumMap G.cells (g :: gs') * 1) 0 (g :: gs') (L :: ls)) := by
+        simp only [traceMat, hcp, liftO, bind, Except.bind, ne_eq, not_true_eq_false, if_false]
+        rfl
+      rw [e, traceBlocks_cons, vstack_ok (sumMap G.cells (g :: gs') * 1) _ _
+        (by rw [← traceBlocks_cons]; exact traceBlocks_nc _ _ _ _),
+        ← traceBlocks_cons, traceBlocks_nr _ _ _ _ hlen, traceBlocks_acc _ _ _ _ _ hlen hfit, accFlat2_eq, hzl]
+      congr 2
+      · exact Nat.mul_one _
+      · congr 1
+        funext p
+        cases ((g :: gs').zip (L :: ls))[p]? with
+        | none => rfl
+        | some x =>
+          simp only [Nat.zero_add]
+          rw [sumMap_take_zip_fst G.faces _ _ p hlen, sumMap_take_zip_fst G.cells _ _ p hlen]
+
+/-- The other branches of `Trace.__init__`: an empty list gives the empty matrix; vector-valued
+    traces are refused (`NotImplementedError`) for every non-empty well-formed list. -/
+theorem trace_other_cases (gs : List G) (dim : Nat) (locals : List (List Trip)) :
+    traceMat [] dim locals = .ok ⟨0, 0, []⟩ ∧
+      (gs ≠ [] → 0 < dim → dim ≠ 1 → (∀ g ∈ gs, g.wf) → traceMat gs dim locals = .error .notImplemented) := by
+  refine ⟨rfl, ?_⟩
+  intro hne hd h1 hwf
+  cases gs with
+  | nil => exact absurd rfl hne
+  | cons g gs' =>
+    simp [traceMat, cellProjs_eq (g :: gs') dim hd hwf, liftO, bind, Except.bind, h1]
+
+/-! ### when exactly the code raises -/
+
+/-- Error paths of `cell_/face_restriction/prolongation`, for ALL grid data (no well-formedness assumed):
+    * the offset loop raises `IndexError` exactly when some grid has no cells (cell version) resp. some
+      grid of positive dimension has no faces (face version) — and then every call raises it, whatever `sel`;
+    * otherwise a call raises `KeyError` exactly when some requested grid is not in the list;
+    * otherwise it returns a matrix.  No other exception is possible. -/
+theorem error_paths (useFaces : Bool) (gs : List G) (dim : Nat) (hd : 0 < dim) (sel : List Nat) :
+    (projsOf useFaces gs dim = none ↔
+        ∃ g ∈ gs, if useFaces then (0 < g.gdim ∧ g.faces = 0) else g.cells = 0) ∧
+      (prolongation useFaces gs dim sel = .error .indexError ↔ projsOf useFaces gs dim = none) ∧
+      (prolongation useFaces gs dim sel = .error .keyError ↔
+        projsOf useFaces gs dim ≠ none ∧ ∃ i ∈ sel, gs.length ≤ i) ∧
+      ((∃ m, prolongation useFaces gs dim sel = .ok m) ↔
+        projsOf useFaces gs dim ≠ none ∧ ∀ i ∈ sel, i < gs.length) ∧
+      (restriction useFaces gs dim sel = .error .indexError ↔ projsOf useFaces gs dim = none) ∧
+      (restriction useFaces gs dim sel = .error .keyError ↔
+        projsOf useFaces gs dim ≠ none ∧ ∃ i ∈ sel, gs.length ≤ i) ∧
+      ((∃ m, restriction useFaces gs dim sel = .ok m) ↔
+        projsOf useFaces gs dim ≠ none ∧ ∀ i ∈ sel, i < gs.length) := by
+  have hlen : ∀ r, projsOf useFaces gs dim = some r → r.length = gs.length := by
+    intro r hr
+    cases useFaces with
+    | true =>
+      have h := projAux_length dim (gs.map (fun g => (g.faces, decide (0 < g.gdim)))) 0 r
+        (by simpa [projsOf, faceProjs] using hr)
+      rw [List.length_map] at h
+      exact h
+    | false =>
+      have h := projAux_length dim (gs.map (fun g => (g.cells, true))) 0 r
+        (by simpa [projsOf, cellProjs] using hr)
+      rw [List.length_map] at h
+      exact h
+  obtain ⟨h1, h2, h3⟩ := subIdx_char (projsOf useFaces gs dim) gs.length hlen sel
+  refine ⟨?_, ?_, ?_, ?_, ?_, ?_, ?_⟩
+  · cases useFaces with
+    | true =>
+      simp only [projsOf, faceProjs, if_true, projAux_none_iff dim hd]
+      constructor
+      · rintro ⟨p, hp, h⟩
+        obtain ⟨g, hg, rfl⟩ := List.mem_map.mp hp
+        exact ⟨g, hg, by simpa using h⟩
+      · rintro ⟨g, hg, h⟩
+        exact ⟨_, List.mem_map.mpr ⟨g, hg, rfl⟩, by simpa using h⟩
+    | false =>
+      simp only [projsOf, cellProjs, Bool.false_eq_true, if_false, projAux_none_iff dim hd]
+      constructor
+      · rintro ⟨p, hp, h⟩
+        obtain ⟨g, hg, rfl⟩ := List.mem_map.mp hp
+        exact ⟨g, hg, h.2⟩
+      · rintro ⟨g, hg, h⟩
+        exact ⟨_, List.mem_map.mpr ⟨g, hg, rfl⟩, rfl, h⟩
+  · exact (bind_pure_error _ _ _).trans h1
+  · exact (bind_pure_error _ _ _).trans h2
+  · exact (bind_pure_ok _ _).trans h3
+  · exact (bind_pure_error _ _ _).trans h1
+  · exact (bind_pure_error _ _ _).trans h2
+  · exact (bind_pure_ok _ _).trans h3
+
+/-! ### sign of mortar sides -/
+
+/-- `MortarProjections.sign_of_mortar_sides`: the diagonal is the concatenation, in interface order, of
+    the per-interface signs; interface `k` occupies the entries `[dim * (cells of the earlier
+    interfaces), + dim * cells)`, `-1` on the first (`LEFT`) side, `+1` on the second, all `+1` for
+    one-sided interfaces.  Every entry is `±1`, so the operator is its own inverse. -/
+theorem sign_block_offsets (dim : Nat) (intfs : List Intf)
+    (hcons : ∀ i ∈ intfs, i.sides = 1 ∨ i.left + i.right = i.cells) :
+    (signDiag dim intfs).length = dim * sumMap Intf.cells intfs ∧
+      (∀ x ∈ signDiag dim intfs, x * x = 1) ∧
+      ∀ k j (hk : k < intfs.length), j < intfs[k].cells * dim →
+        (signDiag dim intfs)[dim * sumMap Intf.cells (intfs.take k) + j]? =
+          some (if intfs[k].sides = 1 then 1 else if j < intfs[k].left * dim then -1 else 1) := by
+  have hl : ∀ l : List Intf, (∀ i ∈ l, i.sides = 1 ∨ i.left + i.right = i.cells) →
+      sumMap (fun i => (signOf dim i).length) l = dim * sumMap Intf.cells l := by
+    intro l hlc
+    rw [sumMap_congr _ (fun i : Intf => i.cells * dim) l (fun i hi => signOf_length dim i (hlc i hi)),
+      sumMap_mul_right]
+  refine ⟨?_, ?_, ?_⟩
+  · unfold signDiag
+    rw [← hl intfs hcons]
+    have hgen : ∀ l : List Intf, (l.flatMap (signOf dim)).length = sumMap (fun i => (signOf dim i).length) l := by
+      intro l
+      induction l with
+      | nil => rfl
+      | cons i is ih => simp only [List.flatMap_cons, List.length_append, sumMap, ih]
+    exact hgen intfs
+  · intro x hx
+    obtain ⟨i, _, hxi⟩ := List.mem_flatMap.mp hx
+    rcases signOf_mem dim i x hxi with rfl | rfl <;> grind
+  · intro k j hk hj
+    have hkc := hcons _ (List.getElem_mem hk)
+    unfold signDiag
+    rw [← hl (intfs.take k) (fun i hi => hcons i (List.mem_of_mem_take hi)),
+      flatMap_getElem? (signOf dim) intfs k j hk (by rw [signOf_length dim _ hkc]; exact hj)]
+    exact signOf_getElem? dim _ hkc j hj
+
 /-! ### non-vacuity: the hypotheses are satisfiable with non-trivial data -/
 
 /-- a 2-d grid (4 cells, 16 faces), two 1-d grids, a 0-d grid — listed in a non-sorted order -/
@@ -449,5 +625,27 @@ example := boundary_projection_is_restriction exGs 2 (by decide) (by decide) (by
 
 example : (match boundaryIdx exGs 2 with | .ok idx => idx | .error _ => []) =
     [0, 1, 6, 7, 8, 9, 10, 11, 18, 19, 26, 27, 50, 51] := by decide
+
+/-- local divergences (cells × faces) / traces (faces × cells) of the four example grids -/
+def exDivs : List (List Trip) :=
+  [[(0, 0, -1), (0, 1, 1), (1, 1, -1), (1, 2, 1)], [(0, 0, -1), (3, 15, 1)], [], [(2, 5, 1)]]
+def exTraces : List (List Trip) :=
+  [[(0, 0, 1), (3, 1, 1)], [(15, 3, 1), (0, 0, 1)], [], [(5, 2, 1)]]
+
+example := divergence_is_block_diagonal exGs 2 exDivs rfl
+example : (divergenceMat exGs 2 exDivs).tr.map (fun t => (t.1, t.2.1)) =
+    [(0, 0), (1, 1), (0, 2), (1, 3), (2, 2), (3, 3), (2, 4), (3, 5),
+     (4, 8), (5, 9), (10, 38), (11, 39), (18, 50), (19, 51)] := by decide
+example := trace_is_block_placement exGs (by decide) (by decide) exTraces rfl (by decide)
+example := (trace_other_cases exGs 2 exTraces).2 (by decide) (by decide) (by decide) (by decide)
+example := error_paths true exGs 2 (by decide) [0, 7]
+/-- a grid of positive dimension without faces makes the face version raise, the cell version not -/
+example : projsOf true [⟨2, 4, 1, []⟩, ⟨3, 0, 1, []⟩] 2 = none ∧
+    projsOf false [⟨2, 4, 1, []⟩, ⟨3, 0, 1, []⟩] 2 ≠ none := by decide
+example : prolongation false exGs 2 [0, 7] = .error .keyError :=
+  ((error_paths false exGs 2 (by decide) [0, 7]).2.2.1).mpr ⟨by decide, 7, by decide, by decide⟩
+example := sign_block_offsets 2 exIntfs (by decide)
+example : signDiag 2 exIntfs = [-1, -1, -1, -1, 1, 1, 1, 1, -1, -1, 1, 1, -1, -1, -1, -1, -1, -1, 1, 1, 1, 1, 1, 1] := by
+  decide
 
 end PorepyVerif.C27
